@@ -330,6 +330,76 @@ pub fn ms_vec_tuple() {
     vend!();
 }
 
+/// Generic "container = buffer + element-wise sum" check: for a Vec<T> built from
+/// `mk`, heap_size and all four bulk helpers must equal the sum of the single
+/// elements' heap_size / value_size (the single-element functions are checked
+/// against explicit formulas in ms_wrappers). Catches a specialised bulk path
+/// that disagrees with the element-wise definition for any wrapper T.
+fn elementwise<T: MemSize>(v: &Vec<T>) {
+    let mut hs = 0usize;
+    let mut i = 0;
+    while i < 2 {
+        if i < v.len() {
+            hs += v[i].heap_size();
+        }
+        i += 1;
+    }
+    vassert!([C08, C09], v.heap_size() == v.capacity() * size_of::<T>() + hs, "Vec<T>::heap_size differs from buffer + element-wise sum of T::heap_size (bulk path of a wrapper type)");
+    vassert!([C08], T::heap_size_sum_iter(|| v.iter()) == hs && T::heap_size_sum_exact_size_iter(|| v.iter()) == hs, "heap_size_sum_iter / heap_size_sum_exact_size_iter differ from the element-wise sum");
+    vassert!([C08], T::heap_size_sum_iter(|| v.iter().rev()) == hs && T::heap_size_sum_exact_size_iter(|| v.iter().rev()) == hs, "bulk helpers on a reversed iterator differ from the element-wise sum");
+    vassert!([C08], T::value_size_sum_iter(v.iter()) == v.len() * size_of::<T>() && T::value_size_sum_exact_size_iter(v.iter()) == v.len() * size_of::<T>(), "value_size bulk helpers differ from the element-wise sum");
+    let b: &[T] = &v[..];
+    vassert!([C08, C09], HeapSize::heap_size(b) == hs, "[T]::heap_size differs from the element-wise sum");
+}
+
+/// Two-element vectors of every wrapper around String with different capacities
+/// in every position (so that swapped / dropped / double-counted parts show).
+pub fn ms_vec_wrapped(part: u8) {
+    let c0: usize = sym::any();
+    let c1: usize = sym::any();
+    let c2: usize = sym::any();
+    sym::assume(c0 <= 3 && c1 <= 3 && c2 <= 3);
+    let s = |c: usize| String::with_capacity(c);
+    match part {
+        0 => {
+            let v: Vec<Option<String>> = vec![Some(s(c0)), None];
+            elementwise(&v);
+            let w: Vec<Result<String, String>> = vec![Ok(s(c0)), Err(s(c1))];
+            elementwise(&w);
+            vassert!([C08, C09], w.heap_size() == 2 * size_of::<Result<String, String>>() + c0 + c1, "Vec<Result<String, String>> loses the Err payload's heap");
+            std::mem::forget((v, w));
+        }
+        1 => {
+            let v: Vec<std::ops::Range<String>> = vec![s(c0)..s(c1), s(c2)..s(c0)];
+            elementwise(&v);
+            vassert!([C08, C09], v.heap_size() == 2 * size_of::<std::ops::Range<String>>() + 2 * c0 + c1 + c2, "Vec<Range<String>> does not count every start and end once");
+            let w: Vec<std::ops::RangeInclusive<String>> = vec![s(c0)..=s(c1), s(c2)..=s(c0)];
+            elementwise(&w);
+            std::mem::forget((v, w));
+        }
+        2 => {
+            let v: Vec<(String, String)> = vec![(s(c0), s(c1)), (s(c2), s(c0))];
+            elementwise(&v);
+            let w: Vec<[String; 2]> = vec![[s(c0), s(c1)], [s(c2), s(c0)]];
+            elementwise(&w);
+            let x: Vec<Wrapping<String>> = Vec::new();
+            std::mem::forget((v, w, x));
+        }
+        _ => {
+            let v: Vec<Box<String>> = vec![Box::new(s(c0)), Box::new(s(c1))];
+            elementwise(&v);
+            let w: Vec<std::ops::RangeFrom<String>> = vec![s(c0).., s(c1)..];
+            elementwise(&w);
+            let x: Vec<std::ops::RangeTo<String>> = vec![..s(c0), ..s(c1)];
+            elementwise(&x);
+            let y: Vec<std::ops::RangeToInclusive<String>> = vec![..=s(c2), ..=s(c1)];
+            elementwise(&y);
+            std::mem::forget((v, w, x, y));
+        }
+    }
+    vend!();
+}
+
 pub fn ms_binary_heap(cap: usize, len: usize) {
     let mut h: BinaryHeap<Box<u8>> = BinaryHeap::with_capacity(cap);
     let mut i = 0;
@@ -446,6 +516,10 @@ harnesses! {
     ms_vec_array_2 [7] => ms_vec_array::<2>(); //@ q=C08 to=900
     ms_vec_array_3 [7] => ms_vec_array::<3>(); //@ t=C08 to=1200
     ms_vec_tuple_sym [7] => ms_vec_tuple(); //@ q=C08 to=1200
+    ms_vec_wrapped_opt_res [7] => ms_vec_wrapped(0); //@ q=C08,C09 to=900
+    ms_vec_wrapped_ranges [7] => ms_vec_wrapped(1); //@ q=C08,C09 to=900
+    ms_vec_wrapped_tuple_array [7] => ms_vec_wrapped(2); //@ q=C08,C09 to=900
+    ms_vec_wrapped_box_halfranges [7] => ms_vec_wrapped(3); //@ q=C08 t=C09 to=900
     ms_binary_heap_c3_l2 [7] => ms_binary_heap(3, 2); //@ q=C08 to=900
     ms_binary_heap_c1_l0 [7] => ms_binary_heap(1, 0); //@ q=C08 to=900
     ms_ffi_sym [7] => ms_ffi(); //@ q=C08,C09 to=900 args=-Z,mem-predicates
